@@ -10,6 +10,7 @@ Line protocol on stdin/stdout (one JSON document per line):
 
 A *time spec* is null (None) or {"i": <instant, µs since the epoch>, "rep": [...]}, rep being
   ["nl"]            naive local, as a file store reports it: datetime.fromtimestamp
+  ["file"]          what a REAL bundled file store's get_modified_time returns for a file whose mtime is that instant
   ["nlflip"]        the same with the fold bit flipped (the parent only asks for it where the wall reading is unambiguous)
   ["au"]            aware, UTC
   ["ao", seconds]   aware, fixed offset
@@ -31,6 +32,9 @@ import time
 US = dt.timedelta(microseconds=1)
 EPOCH_N = dt.datetime(1970, 1, 1)
 EPOCH_A = dt.datetime(1970, 1, 1, tzinfo=dt.timezone.utc)
+
+
+_TMP = None
 
 
 def off_at(sec):
@@ -65,6 +69,21 @@ def build(spec):
         wall, fold = spec["raw"]
         return (EPOCH_N + wall * US).replace(fold=fold)
     i, rep = spec["i"], spec["rep"]
+    if rep[0] == "file":
+        # what a BUNDLED file store reports for a file last modified at that instant (a whole number of seconds)
+        import tempfile
+        from uberjob.stores import BinaryFileStore
+        global _TMP
+        if _TMP is None:
+            import atexit
+            import shutil
+            _TMP = tempfile.mkdtemp(prefix="verif-c18-")
+            atexit.register(shutil.rmtree, _TMP, True)
+        path = os.path.join(_TMP, "f%d" % len(os.listdir(_TMP)))
+        with open(path, "wb") as fh:
+            fh.write(b"x")
+        os.utime(path, ns=(i * 1000, i * 1000))
+        return BinaryFileStore(path).get_modified_time()
     if rep[0] in ("nl", "nlflip"):
         d = dt.datetime.fromtimestamp(i // 10**6).replace(microsecond=i % 10**6)
         if rep[0] == "nlflip":
